@@ -17,5 +17,6 @@ for line in p.stdout.splitlines():
 missing = sorted(want - passed)
 print(f"baseline={len(want)} passed={len(passed)} failed={len(failed)} missing_from_baseline={len(missing)}")
 for m in missing[:40]: print("  NOT PASSING:", m)
+for f in sorted(failed - want)[:10]: print("  failing, not in baseline:", f)
 if not passed: print(p.stdout[-2000:], p.stderr[-2000:])
 sys.exit(1 if missing else 0)
